@@ -171,6 +171,27 @@ def model_check(spec, cfgname, tag, workers=4, timeout=3600, xmx="6g", coverage=
     return dict(spec=spec, cfg=cfgname, states=dist, transitions=gen, never_taken=zero)
 
 
+def apalache_check(module, cinit, inv, tag, expect_ok=True, timeout=1800):
+    """One Apalache obligation `Init => inv` (--length=0) of a module under spec/apalache: the SMT solver decides it
+    for all values of the variables (full-width integer statements TLC can only enumerate at toy size).
+    expect_ok=False is a deliberately wrong variant that must be refuted (non-vacuity of the encoding)."""
+    outdir = os.path.join(WORK, "apalache-" + tag)
+    cmd = ["apalache-mc", "check", "--init=Init", "--next=Next", "--inv=" + inv, "--length=0", "--out-dir=" + outdir]
+    if cinit:
+        cmd.append("--cinit=" + cinit)
+    cmd.append(os.path.join(SPEC, "apalache", module + ".tla"))
+    r = run(cmd, timeout, cwd=WORK)
+    shutil.rmtree(outdir, ignore_errors=True)
+    ok = "EXITCODE: OK" in r.stdout and "The outcome is: NoError" in r.stdout
+    refuted = "Checker has found an error" in r.stdout
+    if expect_ok and not ok:
+        raise ToolError("Apalache obligation %s/%s/%s not discharged:\n%s" % (module, cinit, inv, r.stdout[-3000:]))
+    if not expect_ok and not refuted:
+        raise ToolError("Apalache did not refute the wrong variant %s/%s/%s:\n%s" % (module, cinit, inv, r.stdout[-3000:]))
+    return dict(spec="apalache/" + module, cfg="%s %s" % (cinit, inv), states=0, transitions=0, never_taken=[],
+                tool="apalache-mc 0.58 (SMT, --length=0)", outcome="discharged for all values" if expect_ok else "wrong variant refuted")
+
+
 # ---------------------------------------------------------------- findings
 
 def load_findings():
@@ -379,6 +400,14 @@ class Check:
                 self.mc.append(r)
                 self.states += r["states"]
                 self.transitions += r["transitions"]
+
+    def run_apalache_jobs(self, jobs, parallel=3):
+        def one(j):
+            return apalache_check(j["module"], j.get("cinit"), j["inv"], "%s-%s-%s-%s" % (self.prop, j["module"], j.get("cinit"), j["inv"]),
+                                  expect_ok=j.get("expect_ok", True), timeout=j.get("timeout", 1800))
+        with ThreadPoolExecutor(max_workers=parallel) as ex:
+            for r in ex.map(one, jobs):
+                self.mc.append(r)
 
     def finish(self, rule, assumptions, extra=None):
         seen = set()
